@@ -986,7 +986,9 @@ func (a *analysis) oracleC12() verdict {
 				}
 			}
 			if len(toks) != want {
-				return a.fv("row-tokens", "frame %d bar %d: row %q has %d fields, expected %d (marker, %d+%d decorators, filler)", fi, g.ID, g.Main, len(toks), want, len(spec.Pre), len(spec.App))
+				// the row cannot be split into the fields the scenario put there (a text with
+				// spaces, a decorator that printed nothing): nothing can be said about columns
+				return inconclusive("frame %d bar %d: row %q has %d fields, expected %d (marker, %d+%d decorators, filler): columns not judged", fi, g.ID, g.Main, len(toks), want, len(spec.Pre), len(spec.App))
 			}
 			// one entry per decorator slot; a decorator whose text is empty has the empty token
 			next := 0
